@@ -217,7 +217,7 @@ pub fn minimise(c: &Circuit, prop: &str, inv: &str) -> Circuit {
                 R1Op::AddConst(_, s) | R1Op::SubConst(_, s) | R1Op::AddAssignConst(_, s) | R1Op::SubAssignConst(_, s) => {
                     *s = ESrc::Generator
                 }
-                R1Op::WitnessOffer { offer } => *offer = Offer::Honest(ESrc::Generator),
+                R1Op::WitnessOffer { offer } | R1Op::AllocUnchecked { offer } => *offer = Offer::Honest(ESrc::Generator),
                 _ => {}
             }
             try_edit!(x);
@@ -450,6 +450,40 @@ pub fn c14_cases(c: &Corpus, quick: bool) -> Vec<Circuit> {
                     ));
                 }
             }
+        }
+    }
+    // equality gadget on operands that need not be elements (allocated through the unchecked public constructor)
+    for e in elems.iter() {
+        for o in [
+            Offer::Honest(e.clone()),
+            Offer::OtherCoset(e.clone()),
+            Offer::PlusT4(e.clone()),
+            Offer::SameRatioSibling(e.clone()),
+            Offer::T2,
+        ] {
+            out.push(mk(
+                vec![
+                    R1Op::AllocElem {
+                        mode: Mode::Witness,
+                        src: e.clone(),
+                    },
+                    R1Op::AllocUnchecked { offer: o.clone() },
+                    R1Op::IsEq(0, 1),
+                ],
+                vec![],
+                vec![],
+            ));
+            out.push(mk(
+                vec![
+                    R1Op::AllocUnchecked { offer: o.clone() },
+                    R1Op::AllocUnchecked {
+                        offer: Offer::PlusT4(e.clone()),
+                    },
+                    R1Op::IsEq(1, 0),
+                ],
+                vec![],
+                vec![],
+            ));
         }
     }
     // thorough: decode followed by re-encode, every pair of substitutions at the two sites
